@@ -564,9 +564,13 @@ pub open spec fn rfc_sdes_chunks(d: Seq<u8>, c: int, end: int) -> Option<Seq<int
     } else {
         match rfc_chunk(d.subrange(c, end)) {
             None => None,
-            Some((st, n)) => match rfc_sdes_chunks(d, c + n, end) {
-                None => None,
-                Some(cs) => Some(seq![c] + cs),
+            Some((st, n)) => if n <= 0 {
+                None
+            } else {
+                match rfc_sdes_chunks(d, c + n, end) {
+                    None => None,
+                    Some(cs) => Some(seq![c] + cs),
+                }
             },
         }
     }
